@@ -34,13 +34,19 @@ async def run_scatter(ctx, list_tokens):
     return strip(out), strip(st.get_size_port())
 
 
-async def run_gather(ctx, arrivals, depth):
+async def run_gather(ctx, arrivals, depth, reload=False):
     wf = Workflow(context=ctx, name=f"wfg{next(_c)}", config={})
     inp, size, out = wf.create_port(), wf.create_port(), wf.create_port()
     st = wf.create_step(cls=GatherStep, name=f"/g{next(_c)}", size_port=size, depth=depth)
     st.add_input_port("in", inp)
     st.add_output_port("out", out)
     await wf.save(ctx.database)
+    if reload:
+        # the step as recovery / resume sees it: loaded back from the database
+        from streamflow.persistence.loading_context import DefaultDatabaseLoadingContext
+
+        st = (await Workflow.load(wf.persistent_id, DefaultDatabaseLoadingContext(database=ctx.database))).steps[st.name]
+        inp, size, out = st.get_input_port(), st.get_size_port(), st.get_output_port()
     task = asyncio.create_task(st.run())
     for kind, tok in arrivals:
         (size if kind == "size" else inp).put(tok)
@@ -66,6 +72,23 @@ async def one_case(ctx, n, nested):
         out = await run_gather(ctx, arr, 1)
         if len(out) != 1 or not isinstance(out[0], ListToken) or out[0].tag != "0" or [t.value for t in out[0].value] != vals:
             return {"stage": "gather", "n": n, "arrival": [(k, t.tag) for k, t in arr], "got": [[t.value for t in o.value] for o in out if isinstance(o, ListToken)]}
+        return None
+    if rng.random() < 0.4:
+        # nested, flattened by ONE gather of depth 2 (flat cross product): all the elements, in order, under the outer tag; the step is
+        # built in memory or loaded back from the database
+        outer_n, inner_n = max(1, min(n, 4)), rng.choice([1, 3, 11])
+        vals = [[f"v{i}.{j}" for j in range(inner_n)] for i in range(outer_n)]
+        outer, _ = await run_scatter(ctx, [ListToken([ListToken([Token(v) for v in row]) for row in vals], tag="0")])
+        inner, _ = await run_scatter(ctx, outer)
+        arr = [("elem", t.update(t.value)) for t in inner]
+        rng.shuffle(arr)
+        arr.insert(rng.randint(0, len(arr)), ("size", Token(outer_n * inner_n, tag="0")))
+        reloaded = rng.random() < 0.5
+        out = await run_gather(ctx, arr, 2, reload=reloaded)
+        flat = [v for row in vals for v in row]
+        if len(out) != 1 or not isinstance(out[0], ListToken) or out[0].tag != "0" or [t.value for t in out[0].value] != flat:
+            return {"stage": "nested scatter flattened by one gather of depth 2" + (" (gather step saved and loaded back)" if reloaded else ""), "outer": outer_n, "inner": inner_n,
+                    "got": [(o.tag, [t.value for t in o.value]) for o in out if isinstance(o, ListToken)][:4]}
         return None
     # nested: a list of lists, scattered twice, gathered twice
     shape = [rng.choice([0, 1, 2, 11]) for _ in range(n)]
@@ -147,16 +170,70 @@ async def pipeline_case(ctx, n):
     return None
 
 
+async def nested_combinator_case(ctx, order=None):
+    """nested scatter -> dot-product CombinatorStep joining the elements (tags 0.i.j) with one value per outer index (0.i) and one
+    plain value (0), the three groups arriving in any of the 6 orders -> two gathers: the original list of lists"""
+    from streamflow.workflow.combinator import DotProductCombinator
+    from streamflow.workflow.step import CombinatorStep
+
+    shape = [rng.choice([1, 2, 3, 11]) for _ in range(rng.randint(1, 3))]
+    vals = [[f"v{i}.{j}" for j in range(m)] for i, m in enumerate(shape)]
+    outer, osizes = await run_scatter(ctx, [ListToken([ListToken([Token(v) for v in row]) for row in vals], tag="0")])
+    inner, isizes = await run_scatter(ctx, outer)
+    wf = Workflow(context=ctx, name=f"wfn{next(_c)}", config={})
+    comb = DotProductCombinator(name=f"c{next(_c)}", workflow=wf)
+    st = wf.create_step(cls=CombinatorStep, name=f"/c{next(_c)}-combinator", combinator=comb)
+    ins, outs = {}, {}
+    for pn in ("x", "y", "z"):
+        comb.add_item(pn)
+        ins[pn], outs[pn] = wf.create_port(), wf.create_port()
+        st.add_input_port(pn, ins[pn])
+        st.add_output_port(pn, outs[pn])
+    await wf.save(ctx.database)
+    groups = {"x": [("x", t.update(t.value)) for t in inner], "y": [("y", Token(f"param{i}", tag=f"0.{i}")) for i in range(len(shape))], "z": [("z", Token("global", tag="0"))]}
+    order = list(order) if order else rng.sample("xyz", 3)
+    for g in groups.values():
+        rng.shuffle(g)
+    task = asyncio.create_task(st.run())
+    for g in order:
+        for pn, tok in groups[g]:
+            await tok.save(ctx.database, ins[pn].persistent_id)
+            ins[pn].put(tok)
+            for _ in range(rng.choice([0, 3, 20])):
+                await asyncio.sleep(0)
+    for prt in ins.values():
+        prt.put(TerminationToken())
+    await asyncio.wait_for(task, 60)
+    elems = [t.update(t.value) for t in outs["x"].token_list if not isinstance(t, TerminationToken)]
+    arr = [("elem", t) for t in elems] + [("size", s) for s in isizes]
+    rng.shuffle(arr)
+    mid = await run_gather(ctx, arr, 1)
+    arr2 = [("elem", t) for t in mid] + [("size", s) for s in osizes]
+    rng.shuffle(arr2)
+    out = await run_gather(ctx, arr2, 1)
+    got = [[t.value for t in row.value] for row in out[0].value] if len(out) == 1 and isinstance(out[0], ListToken) and all(isinstance(r, ListToken) for r in out[0].value) else None
+    if got != vals:
+        return {"stage": "nested scatter -> dot product with values of the outer levels -> two gathers", "shape": shape, "arrival_order_of_the_levels": order,
+                "combinations_emitted": len(elems), "got": got}
+    return None
+
+
 async def search(n):
     ctx = build_context({"database": {"type": "default", "config": {"connection": ":memory:"}}, "path": tempfile.mkdtemp()})
     try:
+        import itertools as _it
+
+        for perm in _it.permutations("xyz"):  # every arrival order of the three tag levels, once
+            bad = await nested_combinator_case(ctx, perm)
+            if bad:
+                return bad
         for k in range(n):
             size = rng.choice([0, 1, 2, 3, 9, 10, 11, 12, 25]) if k % 4 else rng.choice([0, 1, 2, 3])
             bad = await one_case(ctx, size, nested=(k % 4 == 0))
             if bad:
                 return bad
             if k % 3 == 0:
-                bad = await pipeline_case(ctx, rng.choice([1, 2, 3, 11, 12, 23]))
+                bad = await pipeline_case(ctx, rng.choice([1, 2, 3, 11, 12, 23])) or await nested_combinator_case(ctx)
                 if bad:
                     return bad
     finally:
